@@ -213,6 +213,7 @@ def bucket(case, out):
     yield "simultaneous=" + str(len(ts) != len(set(ts)))
     yield "dispose=" + str(case.get("dispose") is not None)
     yield "mapper_raises=" + str("raise_on" in case)
+    yield "callable_form=" + case.get("callable_form", "def")
     if case.get("outer", {}).get("mode") == "sync":
         yield "sync_outer" + ("_oracle_only" if cc.outer_delivers_after_end(case, out["log"]) else "")
     if any("same_as" in s_ for s_ in case["inners"].values()):
